@@ -18,7 +18,7 @@ pub fn alias_tokinizer(tokinizer: &mut Tokinizer) {
         for (re, data) in tokinizer.config.alias_regex.iter() {
             if re.is_match(&token.original_text.to_lowercase()) {
                 let new_values = match tokinizer.config.token_parse_regex.get("atom") {
-                    Some(items) => get_atom(tokinizer.config, data, items),
+                    Some(items) => get_atom(tokinizer.config, tokinizer.session, data, items),
                     _ => Vec::new()
                 };
 
@@ -48,7 +48,7 @@ pub fn alias_tokinizer(tokinizer: &mut Tokinizer) {
         for (re, data) in language_aliases.iter() {
             if re.is_match(&token.original_text.to_lowercase()) {
                 let new_values = match tokinizer.config.token_parse_regex.get("atom") {
-                    Some(items) => get_atom(tokinizer.config, data, items),
+                    Some(items) => get_atom(tokinizer.config, tokinizer.session, data, items),
                     _ => Vec::new()
                 };
 
